@@ -1,6 +1,7 @@
 import PdtVerif.Lemmas.Ctc
 import Mathlib.Algebra.BigOperators.Group.List.Basic
 import Mathlib.Data.List.Induction
+import Mathlib.Data.List.Nodup
 /-! Forward variables = alignment sums (DESIGN appendix A5).
 
 `finals V frames` is the list of final reading states of all `(V+1)^T` alignments.  Adding a
@@ -401,5 +402,124 @@ theorem exact_eq_mass (V : Nat) (frames : List Frame) (p : List Nat) :
   intro a _
   simp only [Function.comp]
   exact terms_add V p _
+
+/-- every alignment is enumerated exactly once -/
+theorem nodup_allAlign (V : Nat) : ∀ T, (allAlign V T).Nodup
+  | 0 => by simp [allAlign]
+  | T + 1 => by
+    simp only [allAlign]
+    rw [List.nodup_flatMap]
+    refine ⟨?_, ?_⟩
+    · intro a _
+      apply List.Nodup.map _ List.nodup_range
+      intro s s' h
+      exact (concat_eq_concat.1 h).2
+    · have := nodup_allAlign V T
+      refine List.Pairwise.imp ?_ this
+      intro a b hab
+      simp only [Function.onFun]
+      rw [List.disjoint_left]
+      intro x hx hx'
+      simp only [List.mem_map, List.mem_range] at hx hx'
+      obtain ⟨s, _, rfl⟩ := hx
+      obtain ⟨s', _, h⟩ := hx'
+      exact hab (concat_eq_concat.1 h).1.symm
+
+theorem length_allAlign (V : Nat) : ∀ T, (allAlign V T).length = (V + 1) ^ T
+  | 0 => by simp [allAlign]
+  | T + 1 => by
+    simp only [allAlign, List.length_flatMap, List.length_map, List.length_range]
+    rw [List.map_const', List.sum_replicate, length_allAlign V T]
+    simp [Nat.pow_succ]
+
+/-- reading the rest of an alignment after symbol `last`: which tokens get appended -/
+def collapseFrom (V : Nat) : Option Nat → List Nat → List Nat
+  | _, [] => []
+  | last, s :: r =>
+    if s = V then collapseFrom V (some V) r
+    else if last = some s then collapseFrom V (some s) r
+    else s :: collapseFrom V (some s) r
+
+theorem foldl_pre (V : Nat) : ∀ (frames : List Frame) (a : List Nat) (st : AState),
+    a.length = frames.length →
+    ((frames.zip a).foldl (fun st fs => stepSym V fs.1 st fs.2) st).pre
+      = st.pre ++ collapseFrom V st.last a
+  | [], [], st, _ => by simp [collapseFrom]
+  | [], _ :: _, _, h => by simp at h
+  | _ :: _, [], _, h => by simp at h
+  | f :: fs, s :: a, st, h => by
+    simp only [List.zip_cons_cons, List.foldl_cons]
+    rw [foldl_pre V fs a _ (by simpa using h)]
+    unfold stepSym
+    by_cases h1 : s = V
+    · simp [h1, collapseFrom]
+    · by_cases h2 : st.last = some s
+      · simp [h1, h2, collapseFrom]
+      · simp [h1, h2, collapseFrom]
+
+theorem dedupAdj_cons_head (x : Nat) : ∀ (a : List Nat), ∃ r, dedupAdj (x :: a) = x :: r
+  | [] => ⟨[], rfl⟩
+  | b :: a => by
+    by_cases h : x = b
+    · subst h
+      obtain ⟨r, hr⟩ := dedupAdj_cons_head x a
+      exact ⟨r, by simp [dedupAdj, hr]⟩
+    · exact ⟨dedupAdj (b :: a), by simp [dedupAdj, h]⟩
+
+theorem collapseFrom_some (V : Nat) : ∀ (a : List Nat) (x : Nat),
+    collapseFrom V (some x) a = ((dedupAdj (x :: a)).tail).filter (· ≠ V)
+  | [], x => by simp [collapseFrom, dedupAdj]
+  | s :: a, x => by
+    have ih := collapseFrom_some V a s
+    obtain ⟨r, hr⟩ := dedupAdj_cons_head s a
+    rw [hr] at ih
+    simp only [List.tail_cons] at ih
+    by_cases hxs : x = s
+    · subst hxs
+      simp only [dedupAdj, if_true, hr, List.tail_cons]
+      by_cases h1 : x = V
+      · subst h1; simp only [collapseFrom, if_true]; exact ih
+      · simp only [collapseFrom, h1, if_false, if_true]; exact ih
+    · have hxs' : ¬ (some x = some s) := by simpa using hxs
+      simp only [dedupAdj, hxs, if_false, hr, List.tail_cons]
+      by_cases h1 : s = V
+      · subst h1
+        simp only [collapseFrom, if_true, ih]
+        simp
+      · simp only [collapseFrom, h1, hxs', if_false, ih]
+        simp [h1]
+
+theorem collapseFrom_none (V : Nat) : ∀ (a : List Nat), collapseFrom V none a = collapse V a
+  | [] => by simp [collapseFrom, collapse, dedupAdj]
+  | s :: a => by
+    obtain ⟨r, hr⟩ := dedupAdj_cons_head s a
+    have ih := collapseFrom_some V a s
+    rw [hr] at ih
+    simp only [List.tail_cons] at ih
+    unfold collapse
+    rw [hr]
+    by_cases h1 : s = V
+    · subst h1; simp only [collapseFrom, if_true, ih]; simp
+    · simp only [collapseFrom, h1, if_false, ih]
+      simp [h1]
+
+/-- the prefix read off an alignment is its textbook collapse: merge repeats, drop blanks -/
+theorem runAlign_pre (V : Nat) (frames : List Frame) (a : List Nat) (h : a.length = frames.length) :
+    (runAlign V frames a).pre = collapse V a := by
+  unfold runAlign
+  rw [foldl_pre V frames a aInit h]
+  simp [aInit, collapseFrom_none]
+
+/-- `mass` in the textbook form: the sum of the path weights over the alignments whose collapse is `p` -/
+theorem mass_eq_collapse_sum (V : Nat) (frames : List Frame) (p : List Nat) :
+    mass V frames p =
+      ((allAlign V frames.length).map (fun a =>
+        if collapse V a = p then (runAlign V frames a).w else 0)).sum := by
+  unfold mass
+  congr 1
+  apply List.map_congr_left
+  intro a ha
+  simp only
+  rw [runAlign_pre V frames a (length_of_mem_allAlign ha)]
 
 end PdtVerif.Ctc
